@@ -439,6 +439,29 @@ func legacySuffixRule(c *Ctx, prop string, pkgs []string, methods map[string]boo
 							}
 							walk(e, d+1)
 						}
+					case *ssa.Extract:
+						// result of a helper of the module: every non-false return value
+						if call, isCall := x.Tuple.(*ssa.Call); isCall {
+							if g := call.Call.StaticCallee(); g != nil && g.Blocks != nil && core.FuncClass(g) == core.Product {
+								for _, ret := range guard.Returns(g) {
+									if x.Index < len(ret.Results) {
+										if b, isC := guard.ConstBool(ret.Results[x.Index]); isC && !b {
+											continue
+										}
+										walk(ret.Results[x.Index], d+1)
+									}
+								}
+							}
+						}
+					case *ssa.Call:
+						if g := x.Call.StaticCallee(); g != nil && g.Blocks != nil && core.FuncClass(g) == core.Product && g.Signature.Results().Len() == 1 {
+							for _, ret := range guard.Returns(g) {
+								if b, isC := guard.ConstBool(ret.Results[0]); isC && !b {
+									continue
+								}
+								walk(ret.Results[0], d+1)
+							}
+						}
 					case *ssa.UnOp:
 						// heap-allocated local: follow the stores into it
 						if al, isAl := x.X.(*ssa.Alloc); isAl {
